@@ -11,7 +11,7 @@ export CARGO_NET_OFFLINE=true RUST_LIB_BACKTRACE=0
 sed -i '/^done$/d' "$LOG"
 for c in $CHECKS; do
   sed -i "/^check $c on seeded tree/d" "$LOG"
-  RUN_ON_TREE_TARGET=/tmp/seed-check.target /verif/tools/run_on_tree.sh "$WT" "$c" --tier quick >"$DST/check_$c.log" 2>&1; R=$?
+  RUN_ON_TREE_TARGET=${SEED_CHECK_TARGET:-/tmp/seed-check.target} /verif/tools/run_on_tree.sh "$WT" "$c" --tier quick >"$DST/check_$c.log" 2>&1; R=$?
   echo "check $c on seeded tree: exit=$R; $(grep -c '^VIOLATION' "$DST/check_$c.log") VIOLATION line(s); first: $(grep '^VIOLATION' "$DST/check_$c.log" | head -1 | cut -c1-260)" | tee -a "$LOG"
 done
 echo "rechecked at /repo $(git -C /repo rev-parse --short HEAD)" | tee -a "$LOG"; echo done >> "$LOG"
